@@ -70,6 +70,12 @@ def main(argv=None):
         print(f"ENGINE-ERROR property={prop} building the plan failed: {e}")
         return 3
     units = plan.units
+    if os.environ.get("PVC_UNITS"):
+        # development aid: run only the units matching a regex; never writes the real evidence file
+        units = [u for u in units if re.search(os.environ["PVC_UNITS"], u.name)]
+        plan.units = units
+        plan.min_obligations = 0
+        os.environ.setdefault("PVC_EVIDENCE_DIR", "/tmp/pvc_partial_evidence")
     results = run_units(units, tier, seed, digest=plan.digest + "|" + runtime_fingerprint())
     return finish(prop, tier, seed, plan, units, results, t0)
 
@@ -298,8 +304,10 @@ def finish(prop, tier, seed, plan, units, results, t0):
         "exit_status": status,
         "source_digest": plan.digest,
     }
-    os.makedirs(os.path.join(VERIF, "evidence"), exist_ok=True)
-    with open(os.path.join(VERIF, "evidence", f"{prop}.json"), "w") as f:
+    # PVC_EVIDENCE_DIR: used by seedtest.sh so that runs on a deliberately broken tree do not overwrite the evidence
+    evdir = os.environ.get("PVC_EVIDENCE_DIR") or os.path.join(VERIF, "evidence")
+    os.makedirs(evdir, exist_ok=True)
+    with open(os.path.join(evdir, f"{prop}.json"), "w") as f:
         json.dump(ev, f, indent=1, default=repr)
 
     # -- report
